@@ -280,6 +280,22 @@ def run_shard(params: dict, ctx) -> None:
             for cuts in chunkings:
                 hint = rng.choice(gen.HINTS)
                 check_one(ctx, cfg, case_protos, packets, stream, ends, cuts, hint, [params["seed"], it])
+            if it < 2 and cfg.has_limit and cfg.kind in ("sep", "json-raw", "compress"):
+                # many small frames coalesced into reads larger than the limit: the limit bounds one frame, not what a read
+                # happens to carry behind it (the file-based serializers document theirs as a buffer size: not exercised here)
+                many = [cfg.gen_packet(rng) for _ in range(12)]
+                try:
+                    st2, ends2, _ = drive.produce(protos[0], many)
+                except Exception:  # noqa: BLE001
+                    st2 = None
+                if st2 is not None:
+                    big = max(b - a for a, b in zip([0] + ends2, ends2))
+                    small_limit = max(32, 4 * big + 8)
+                    if len(st2) > small_limit:
+                        ctx.count("coalesced_stream_larger_than_limit")
+                        cp = (cfg.stream_protocol(small_limit), cfg.buffered_protocol(small_limit))
+                        for cuts in ([], list(ends2[2::3][:-1]) if len(ends2) > 3 else [], gen.random_cuts(rng, len(st2)), [c for c in range(small_limit + 1, len(st2), small_limit + 1)]):
+                            check_one(ctx, cfg, cp, many, st2, ends2, cuts, rng.choice(gen.HINTS), [params["seed"], it, "coalesced", small_limit])
             if it == 0 and len(ctx.samples) < 3:
                 ctx.sample({"config": cfg.name, "packets": [repr(p) for p in packets][:3], "stream": stream[:80], "cuts": chunkings[3], "hint": hint})
 
@@ -307,7 +323,9 @@ def _exhaustive(ctx, cfg: gen.Config, protos: tuple, rng: random.Random) -> None
 
 def replay(witness: dict, ctx) -> None:
     cfg = gen.config_by_name(witness["config"])
-    protos = (cfg.stream_protocol(), cfg.buffered_protocol())
+    tag = witness.get("tag")
+    lim = tag[3] if isinstance(tag, list) and len(tag) > 3 and tag[2] == "coalesced" else None
+    protos = (cfg.stream_protocol(lim), cfg.buffered_protocol(lim))
     stream = bytes.fromhex(witness["stream"]["hex"])
     # re-derive packets by decoding is impossible in general: re-run drivers and compare the two paths + one-shot frames
     import ast
